@@ -62,7 +62,7 @@ def py_env(env):
 INT_LITS = [0, 1, 2, 3, 5, 7, 10, 100, 255, 256, 1000]
 FLOAT_LITS = ["0.5", "1.5", "2.5", "0.25", "3.0", "100.0", "7.75", "0.0", "2.0"]
 STR_LITS = ['"a"', '"ab"', '""', '"12"', '"x y"', '"-3"', '"q\\"r"', '"a#b"']      # "a#b": a '#' inside a literal is not a comment
-NUM_LITS = ['"12"', '"13"', '"-3"', '" 7 "', '"0"', '"+41"', '"2147483647"']
+NUM_LITS = ['"12"', '"13"', '"-3"', '" 7 "', '"0"', '"+41"', '"1000"']
 CMP = ["==", "!=", "<", "<=", ">", ">="]
 
 
